@@ -738,6 +738,9 @@ func (e *Engine) specAxioms(x *Exec, sd *SpecDecl) {
 				st.heap[key] = store(h, reg, arr)
 				env.vars[p.Name] = Val{T: pt, S: fmt.Sprintf("(mk_slice %s %s %s %s)", reg, off, ln, ln)}
 				guards = append(guards, le("0", ln))
+			} else if _, isMap := under(pt).(*types.Map); isMap {
+				binders = append(binders, fmt.Sprintf("(%s %s)", n, x.ghostSort(pt)))
+				env.vars[p.Name] = Val{T: pt, S: n, GM: e.ghostMapInfoOfType(x, pt)}
 			} else {
 				binders = append(binders, fmt.Sprintf("(%s %s)", n, x.so.sortOf(pt)))
 				env.vars[p.Name] = Val{T: pt, S: n}
